@@ -651,6 +651,10 @@ func (sa *Application) AddAllocationAsk(ask *Allocation) error {
 		// still be allocated when the application leaves the partition
 		return fmt.Errorf("ask %s cannot be added: application %s is %s", ask.GetAllocationKey(), sa.ApplicationID, sa.stateMachine.Current())
 	}
+	if sa.stateMachine.Is(Completed.String()) || sa.stateMachine.Is(Expired.String()) || sa.stateMachine.Is(Rejected.String()) {
+		// the caller looked the application up before its completing timer fired: it has left (or is leaving) its queue
+		return fmt.Errorf("ask %s cannot be added: application %s is %s", ask.GetAllocationKey(), sa.ApplicationID, sa.stateMachine.Current())
+	}
 	if ask.createTime.Before(sa.submissionTime) {
 		sa.submissionTime = ask.createTime
 	}
